@@ -119,6 +119,23 @@ static void RunDepfile(const string& in) {
   if (p.Parse(&content, &err)) g_counts->accepted++; else g_counts->rejected++;
 }
 
+// a depfile as the dependency scan meets it: the statement's depfile on disk, loaded by ImplicitDepLoader::LoadDepFile
+// (plain depfile mode) on the way to deciding what is dirty
+static void RunDepfileLoad(const string& in) {
+  State state;
+  MemReader r;
+  r.files["build.ninja"] = "rule cc\n  command = cc\n  depfile = $out.d\nbuild a: cc a.c\nbuild b: cc a\n";
+  ManifestParser p(&state, &r);
+  string err;
+  if (!p.Load("build.ninja", &err)) return;
+  MemDisk disk;
+  disk.files["a.c"] = "";
+  disk.files["a"] = "";
+  disk.files["a.d"] = in;
+  DependencyScan scan(&state, nullptr, nullptr, &disk, nullptr, nullptr);
+  if (scan.RecomputeDirty(state.LookupNode("b"), nullptr, &err)) g_counts->accepted++; else g_counts->rejected++;
+}
+
 static void RunDyndep(const string& in) {
   State state;
   MemReader r;
@@ -340,6 +357,7 @@ static vector<Format> Formats() {
                 "rule r\n  command = c\n", "build x: r\n", "$\n", " "},
                RunManifest});
   f.push_back({"depfile", {"a", " ", "\\", "#", "$", ":", "\n", "\r", string(1, '\0'), "\x80", "%", "\t"}, RunDepfile});
+  f.push_back({"depfile_load", {"a", " ", "\\", "#", "$", ":", "\n", "\r", "b", "./a", "a.c", "x.h"}, RunDepfileLoad});
   f.push_back({"dyndep",
                {"ninja_dyndep_version = 1\n", "ninja_dyndep_version = 1.0\n", "ninja_dyndep_version = 2\n", "build out: dyndep",
                 " | ", "in2", " out2", "\n", "  restat = 1\n", "build ", "out", ":", " dyndep", "$", "$\n", "#c\n", "x = 1\n",
@@ -364,7 +382,7 @@ static vector<Format> Formats() {
     w.push_back("ab");
     f.push_back({"ninja_deps", w, RunDepsLog});
   }
-  f.push_back({"showincludes", {"Note: including file: ", "foo.h", "\n", "\r\n", " ", "C:\\x.h", "bar.cc", string(1, '\0'), ":", "Note: "},
+  f.push_back({"showincludes", {"Note: including file: ", "foo.h", "\n", "\r\n", " ", "C:\\x.h", "bar.cc", string(1, '\0'), ":", "Note: ", "\r"},
                RunShowIncludes});
   f.push_back({"makeflags", {" ", "-j", "--jobserver-auth=", "--jobserver-fds=", "fifo:", "3,4", "/p", "-", "n", "--", "=", "1",
                              "-1,", "99999999999", ","},
@@ -403,7 +421,7 @@ int main(int argc, char** argv) {
   string fname = a.Get("format");
   long shard = a.GetInt("shard", 0), nshards = a.GetInt("nshards", 1);
   int maxlen = (int)a.GetInt("maxlen", 3);
-  int timeout_s = (int)a.GetInt("timeout", 20);
+  int timeout_s = (int)a.GetInt("timeout", 8);   // per input; the inputs are a few bytes and take microseconds
   // keep ninja's own chatter (warnings from loaders) out of our report
   int devnull = open("/dev/null", O_WRONLY);
   int report_fd = dup(1);
@@ -451,6 +469,7 @@ int main(int argc, char** argv) {
   }
 
   uint64_t total_inputs = 0, crashes = 0;
+  int hangs = 0;
   bool stopped_early = false;  // enough crashing inputs collected: the verdict is clear
   string first_bad;
   int first_bad_status = 0;
@@ -486,6 +505,8 @@ int main(int argc, char** argv) {
       uint64_t bad = sh->current;
       crashes++;
       if (crashes >= 25) { stopped_early = true; }
+      // inputs that run into the watchdog cost its full length each: a handful settles the verdict
+      if (WIFSIGNALED(st) && WTERMSIG(st) == SIGALRM && ++hangs >= 4) { stopped_early = true; }
       string in = Compose(*fmt, bad, len);
       if (all_bad.size() < 5) all_bad.push_back(in);
       if (first_bad.empty() && crashes == 1) { first_bad = in; first_bad_status = st; }
